@@ -1,5 +1,5 @@
 SPECIFICATION Spec
-CONSTANTS Mode = "ska"  MaxT = 6  Timeout = 7000  MaxFail = 2
+CONSTANTS Mode = "ska"  MaxT = 5  Timeout = 7000  MaxFail = 2  Rich = FALSE
 INVARIANTS AgreeBothWays AcceptedTrue
 VIEW View
 CHECK_DEADLOCK FALSE
